@@ -8,7 +8,8 @@ from . import c02, c03, rfc9180 as rfc
 EXPLANATION = (
     'Static analysis: inter-procedural dependence (backward slice) over provenance terms of the MIR (all cargo '
     'features). R07.1: each of key, base_nonce and exporter_secret handed to the context constructor depends on the '
-    'mode byte, psk, psk_id, info, the shared secret and all three suite identifiers (KEM_ID, KDF_ID, AEAD_ID); the '
+    'mode byte, psk, psk_id, info, the shared secret and all three suite identifiers (KEM_ID, KDF_ID, AEAD_ID; R07.5: the '
+    'suite id is byte-exactly "HPKE"||kem||kdf||aead, symbolic per-byte evaluation); the '
     'shared secret of every KEM (both sides, both branches) depends on enc, the recipient key, the DH result(s) and '
     'KEM_ID; export depends on exporter_secret, the suite id, the exporter context and the output length. A missing '
     'static dependence proves that the value cannot influence the keys — a violation; presence is necessary, not '
@@ -224,4 +225,7 @@ def run(ctx):
     rep.floor('R07.1', 'ExtractAndExpand sites (4 per KEM)', n, 4 * nk)
     check_export_deps(rep, facts)
     check_domain_separation(rep, facts)
+    # R07.5: a dependence says an identifier *may* reach the suite id; binding needs every byte of it to get there:
+    # suite_id = "HPKE" || I2OSP(kem, 2) || I2OSP(kdf, 2) || I2OSP(aead, 2) exactly (a loop that stops one short keeps the dependence)
+    c02.check_suite_ids(rep, facts, rule='R07.5')
     rep.bodies_analysed = len(facts.body_list)
